@@ -171,7 +171,10 @@ sha256_for_mh_sha256(const uint8_t *input_data, uint32_t *digest, const uint32_t
         else
                 i = ISAL_SHA256_BLOCK_SIZE;
 
-        *(uint64_t *) (buf + i - 8) = to_be64((uint64_t) len * 8);
+        {
+                const uint64_t len_be = to_be64((uint64_t) len * 8);
+                memcpy(buf + i - 8, &len_be, sizeof(len_be));
+        }
 
         sha256_single_for_mh_sha256(buf, digest);
         if (i == (2 * ISAL_SHA256_BLOCK_SIZE))
